@@ -276,6 +276,20 @@ def _clen(ctx, prop):
     return out
 
 
+def _mathk(ctx, prop):
+    """Math.cpp is an anchor of these properties too: the kernels decided under C16."""
+    if prop not in ('C01', 'C02', 'C06', 'C11'):
+        return []
+    from .rules import quadrant, conserve
+    quad, ncase, nqp = quadrant.rule_QUAD(ctx)
+    quad.floor('function x quadrant cases', ncase, 48)
+    octr, noct = quadrant.rule_OCT(ctx)
+    octr.floor('paths of atan2d', noct, 4)
+    cons, nk, ncp = conserve.rule_CONS(ctx)
+    cons.floor('kernels', nk, 8)
+    return [quad, octr, cons]
+
+
 def _symm(ctx, prop):
     from .rules import symmetry
     out = []
@@ -429,7 +443,7 @@ def _c08(ctx):
     area.floor('paths', npth, 60)
     cons, nk, ncp = conserve.rule_CONS(ctx)
     cons.floor('kernels (Math::sum, Accumulator)', nk, 8)
-    return [p1, poly.rule_P2(ctx), poly.rule_P3(ctx), poly.rule_P4(ctx), poly.rule_P5(ctx), m7, area, cons]
+    return [p1, poly.rule_P2(ctx), poly.rule_P3(ctx), poly.rule_P4(ctx), poly.rule_P5(ctx), m7, area, cons, _m8b(ctx), _sib1(ctx)]
 
 
 def _c17(ctx):
@@ -562,6 +576,7 @@ def run(prop, tier):
     results += _econst(ctx, prop)
     results += _symm(ctx, prop)
     results += _clen(ctx, prop)
+    results += _mathk(ctx, prop)
     results += _lint(ctx, prop)
     rules = sorted({ALIAS.get(r.rule, r.rule) for r in results})
     _extra[prop] = {'positive_controls': controls.run_controls(rules)}
